@@ -55,10 +55,14 @@ type State struct {
 	heap    map[string]string
 	epoch   int
 	nextRef string
+	// syncBase: inside a loop with a declared modifies clause, the state right after the last synchronisation point
+	// (channel operation) on this path, or the loop-head state when there was none: the baseline of the frame check
+	// for the current segment (what other goroutines changed at a synchronisation point is not this function's write)
+	syncBase *State
 }
 
 func (s *State) clone() *State {
-	n := &State{locals: make(map[*ssa.Alloc]string, len(s.locals)), heap: make(map[string]string, len(s.heap)), epoch: s.epoch, nextRef: s.nextRef}
+	n := &State{locals: make(map[*ssa.Alloc]string, len(s.locals)), heap: make(map[string]string, len(s.heap)), epoch: s.epoch, nextRef: s.nextRef, syncBase: s.syncBase}
 	for k, v := range s.locals {
 		n.locals[k] = v
 	}
